@@ -76,12 +76,14 @@ class AdaptationSet(ObjectWithFields):
             defaults['lang'] = 'und'
             defaults['role'] = 'main'
             defaults['numChannels'] = 2
+            defaults['startWithSAP'] = 1
         elif self.content_type == 'video':
             defaults['startWithSAP'] = 1
             defaults['par'] = "16:9"
         elif self.content_type == 'text':
             defaults['lang'] = 'und'
             defaults['role'] = 'subtitle'
+            defaults['startWithSAP'] = 1
         suffix: str = defaults['fileSuffix']
         if self.mode == 'odvod':
             defaults['mediaURL'] = f'$RepresentationID$.{suffix}'
